@@ -81,8 +81,15 @@ def marginal(vec2, wires, n):
     return np.transpose(t, inv).reshape(-1)
 
 
+def herm_apply(vec, m, n):
+    """(H on wires m[1], matrix m[2]) applied to a state vector"""
+    return bridge.apply(np.asarray(vec).reshape(-1, 1), np.asarray(m[2], dtype=complex), list(m[1]), n).reshape(-1)
+
+
 def value(m, st, n):
     psi = st["psi"]
+    if m[0] == "hexp":
+        return float(np.real(psi.conj() @ herm_apply(psi, m, n)))
     if m[0] == "expval":
         return float(np.real(psi.conj() @ word_matrix(m[1]) @ psi))
     if m[0] == "var":
@@ -96,6 +103,8 @@ def value(m, st, n):
 def grad(m, st, n, k):
     """d/d theta_k of measurement m."""
     psi, d = st["psi"], st["d"][k]
+    if m[0] == "hexp":
+        return float(2 * np.real(psi.conj() @ herm_apply(d, m, n)))
     if m[0] == "expval":
         return float(2 * np.real(psi.conj() @ word_matrix(m[1]) @ d))
     if m[0] == "var":
